@@ -29,7 +29,7 @@ const (
 	vfKHead  = 2
 	vfVHead  = 3
 	vfHeads  = 2
-	vfLayers = 2
+	vfLayers = 2 // EncoderCache driver only; the Causal drivers use vfLayerSets
 	vfElem   = 4 // bytes per element
 )
 
@@ -276,6 +276,14 @@ func vfShift(ctx ml.Context, layer int, key, shift ml.Tensor) (ml.Tensor, error)
 	return out, nil
 }
 
+// Layer numbers a Causal is used with.  A cache inside a WrapperCache only ever sees the layers of its
+// own type (gemma: local layers in the sliding-window cache, every sixth in the causal one), so the
+// numbers are sparse, need not start at 0 and can exceed the number of stored layers.
+var vfLayerSets = [][]int{{0, 1}, {0, 2}, {1, 3}, {5}, {0, 7}, {2, 4, 6}}
+
+// per wrapped cache (index = position in the wrapper)
+var vfWLayerSets = [][][]int{{{0, 1}, {0, 1}}, {{0, 2, 4}, {1, 3, 5}}, {{1, 3}, {0, 2}}, {{5}, {0, 7}}, {{0, 1, 3, 4}, {2, 5}}}
+
 // ------------------------------------------------------------------ history language
 
 type vfTok struct {
@@ -298,6 +306,7 @@ type vfConfig struct {
 	maxSeq, capacity, maxBatch int
 	cachePad, batchPad         int
 	hasShift, permV, maskF16   bool
+	layerSet                   int // index into vfLayerSets / vfWLayerSets: the real layer numbers the cache is used with
 	maxNodes                   int
 }
 
@@ -313,7 +322,7 @@ func (cf vfConfig) String() string {
 		return 0
 	}
 	return fmt.Sprintf("%d %s %d %d %d %d %d %d %d %d %d", cf.variant, w, cf.maxSeq, cf.capacity, cf.maxBatch, cf.cachePad, cf.batchPad,
-		b(cf.hasShift), b(cf.permV), b(cf.maskF16), cf.maxNodes)
+		b(cf.hasShift), b(cf.permV), b(cf.maskF16)+2*cf.layerSet, cf.maxNodes) // (the oracle ignores permV and this token)
 }
 
 func (o vfOp) String() string {
@@ -387,7 +396,9 @@ func vfParseHistory(line string) (vfConfig, []vfOp, error) {
 		cf.variant = next()
 		cf.window = int32(next())
 		cf.maxSeq, cf.capacity, cf.maxBatch, cf.cachePad, cf.batchPad = next(), next(), next(), next(), next()
-		cf.hasShift, cf.permV, cf.maskF16 = next() != 0, next() != 0, next() != 0
+		cf.hasShift, cf.permV = next() != 0, next() != 0
+		mf := next()
+		cf.maskF16, cf.layerSet = mf&1 != 0, mf>>1
 		cf.maxNodes = next()
 		n := next()
 		for i := 0; i < n; i++ {
@@ -614,6 +625,7 @@ type vfRun struct {
 	api     Cache         // what Put/Get/SetLayer are called on (the cache itself or the wrapper)
 	sel     func()        // selects this cache behind a wrapper (SetLayerType)
 	taint   *vfTaint
+	layers  []int   // the layer numbers used with this cache; layers[0] is the one L1 prints
 	curToks []vfTok // the batch of the last StartForward this cache executed (accepted or not)
 	passOp  int     // op index of the accepted forward whose pass is still current (nothing else since), else -1
 	window  int32
@@ -675,7 +687,7 @@ func (r *vfRun) absString() string {
 		if len(c.sequences) == 0 {
 			continue
 		}
-		id, sh, _ := r.rowK(0, i)
+		id, sh, _ := r.rowK(r.layers[0], i)
 		k := vfKey{int(c.pos), id, sh}
 		ss := append([]int(nil), c.sequences...)
 		sort.Ints(ss)
@@ -702,7 +714,7 @@ func (r *vfRun) layoutString(fwdOK bool) string {
 			}
 			cells = append(cells, fmt.Sprintf("%d:%d:%s", i, c.pos, strings.Join(ss, "+")))
 		}
-		id, sh, _ := r.rowK(0, i)
+		id, sh, _ := r.rowK(r.layers[0], i)
 		if id != 0 || sh != 0 {
 			rows = append(rows, fmt.Sprintf("%d:%d:%d", i, id, sh))
 		}
@@ -760,18 +772,19 @@ func (r *vfRun) diagnose() vfDiag {
 		if len(c.sequences) == 0 {
 			continue
 		}
-		id, shf, torn := r.rowK(0, i)
+		id, shf, torn := r.rowK(r.layers[0], i)
 		if torn {
 			d.torn = append(d.torn, fmt.Sprintf("loc %d", i))
 		}
-		for l := 1; l < vfLayers; l++ {
-			id2, sh2, _ := r.rowK(l, i)
-			if id2 != id || sh2 != shf {
-				d.layerDiff = append(d.layerDiff, fmt.Sprintf("loc %d layer0=%d/%d layer%d=%d/%d", i, id, shf, l, id2, sh2))
+		// every layer's K row and every layer's V row must carry the same identity
+		for _, l := range r.layers {
+			id2, sh2, torn2 := r.rowK(l, i)
+			if id2 != id || sh2 != shf || torn2 {
+				d.layerDiff = append(d.layerDiff, fmt.Sprintf("loc %d layer%d=%d/%d layer%d=%d/%d", i, r.layers[0], id, shf, l, id2, sh2))
 			}
-		}
-		if vid, ok := r.rowV(0, i); ok && vid != id {
-			d.vDiff = append(d.vDiff, fmt.Sprintf("loc %d K id=%d V id=%d", i, id, vid))
+			if vid, ok := r.rowV(l, i); ok && vid != id {
+				d.vDiff = append(d.vDiff, fmt.Sprintf("loc %d K id=%d, layer %d V id=%d", i, id, l, vid))
+			}
 		}
 		// pass 1: exact matches
 		for _, q := range c.sequences {
@@ -794,7 +807,7 @@ func (r *vfRun) diagnose() vfDiag {
 	// pass 2: cells that hold something else than what was stored for their (seq,pos)
 	for _, u := range unmatched {
 		c := r.cache.cells[u.loc]
-		id, shf, _ := r.rowK(0, u.loc)
+		id, shf, _ := r.rowK(r.layers[0], u.loc)
 		var cand *vfEntry
 		for _, e := range want[key{u.seq, c.pos}] {
 			if !used[e][u.seq] {
@@ -1009,7 +1022,7 @@ func (r *vfRun) fwdOK(opi int, op vfOp, ctx ml.Context) string {
 			}
 		}
 	}
-	for l := 0; l < vfLayers; l++ {
+	for _, l := range r.layers {
 		r.sel()
 		r.api.SetLayer(l)
 		kt, _ := ctx.FromFloatSlice(kdata, vfKHead, vfHeads, n)
@@ -1017,7 +1030,7 @@ func (r *vfRun) fwdOK(opi int, op vfOp, ctx ml.Context) string {
 		r.api.Put(ctx, kt, vt)
 	}
 	if r.taint.k0 == nil {
-		r.taint.k0 = c.keys[0].(*vfTensor).data
+		r.taint.k0 = c.keys[r.layers[0]].(*vfTensor).data
 	}
 	for i := 0; i < n; i++ {
 		delete(r.taint.tainted, c.curLoc+i)
@@ -1038,7 +1051,7 @@ func (r *vfRun) observe(opi int, toks []vfTok, ctx ml.Context, except map[int]bo
 	n := len(toks)
 	sh := &vfShadow{window: r.shadow.window, entries: r.shadow.entries, flags: r.shadow.flags, unsound: r.shadow.unsound || !judge}
 	r.sel()
-	r.api.SetLayer(0)
+	r.api.SetLayer(r.layers[0])
 	kv, vv, mk := r.api.Get(ctx)
 	kview, vview, mask := kv.(*vfTensor), vv.(*vfTensor), mk.(*vfTensor)
 	length := mask.Dim(0)
@@ -1059,7 +1072,7 @@ func (r *vfRun) observe(opi int, toks []vfTok, ctx ml.Context, except map[int]bo
 	}
 	// the mask is built once per pass (or SetCausal) and shared by all layers
 	r.sel()
-	r.api.SetLayer(vfLayers - 1)
+	r.api.SetLayer(r.layers[len(r.layers)-1])
 	if _, _, mk2 := r.api.Get(ctx); !sh.unsound {
 		m2 := mk2.(*vfTensor).Floats()
 		same := len(m2) == len(mf)
@@ -1070,7 +1083,7 @@ func (r *vfRun) observe(opi int, toks []vfTok, ctx ml.Context, except map[int]bo
 			r.l2("mask-differs-across-layers", fmt.Sprintf("op %d", opi))
 		}
 	}
-	r.api.SetLayer(0)
+	r.api.SetLayer(r.layers[0])
 	var sb strings.Builder
 	diagDone := false
 	var diag vfDiag
@@ -1316,7 +1329,7 @@ func vfNewWRun(order int, cf vfConfig, out *zzverif.Out, line string, silent boo
 		cfi.window = c.windowSize
 		t := &vfTaint{tainted: map[int]bool{}}
 		backend.taints = append(backend.taints, t)
-		wr.views = append(wr.views, &vfRun{passOp: -1, tag: "kw-x", api: w, sel: func() { w.SetLayerType(idx) }, taint: t, cf: cfi, cache: c,
+		wr.views = append(wr.views, &vfRun{layers: vfWLayerSets[cf.layerSet%len(vfWLayerSets)][i], passOp: -1, tag: "kw-x", api: w, sel: func() { w.SetLayerType(idx) }, taint: t, cf: cfi, cache: c,
 			backend: backend, line: line, out: out, seenL2: map[string]bool{}, lastQ: map[int][3]int{},
 			shadow: &vfShadow{window: c.windowSize, flags: map[int]*vfSeqFlags{}, unsound: silent}})
 	}
@@ -1525,6 +1538,9 @@ func vfGenConfig(r *zzverif.Rng) vfConfig {
 	cf.permV = r.Chance(1, 3)
 	cf.maskF16 = r.Chance(1, 4)
 	cf.maxNodes = zzverif.Pick(r, []int{10, 16, 40, 8192})
+	if r.Chance(2, 3) {
+		cf.layerSet = r.Intn(len(vfLayerSets))
+	}
 	return cf
 }
 
@@ -1546,7 +1562,7 @@ func vfNewRun(cf vfConfig, out *zzverif.Out, line string, silent bool) *vfRun {
 	cache.Init(backend, ml.DTypeF16, cf.maxSeq, cf.capacity, cf.maxBatch)
 	t := &vfTaint{tainted: map[int]bool{}}
 	backend.taints = append(backend.taints, t)
-	return &vfRun{passOp: -1, tag: "kv-x", api: cache, sel: func() {}, taint: t, cf: cf, cache: cache, backend: backend, line: line, out: out,
+	return &vfRun{layers: vfLayerSets[cf.layerSet%len(vfLayerSets)], passOp: -1, tag: "kv-x", api: cache, sel: func() {}, taint: t, cf: cf, cache: cache, backend: backend, line: line, out: out,
 		seenL2: map[string]bool{}, lastQ: map[int][3]int{},
 		shadow: &vfShadow{window: cf.window, flags: map[int]*vfSeqFlags{}, unsound: silent}}
 }
@@ -1779,6 +1795,7 @@ func vfGenWHistory(r *zzverif.Rng) (vfConfig, []vfOp) {
 	cf.hasShift = r.Chance(7, 8)
 	cf.permV = r.Chance(1, 3)
 	cf.maskF16 = r.Chance(1, 4)
+	cf.layerSet = r.Intn(len(vfWLayerSets))
 	cf.maxNodes = zzverif.Pick(r, []int{10, 40, 8192})
 	probe := vfNewWRun(cf.wrap, cf, nil, "", true)
 	defer probe.w.Close()
@@ -2078,7 +2095,7 @@ func TestVerifC06Probe(t *testing.T) {
 	r, _ := run("kv-x 0 inf 1 5 5 1 1 1 0 0 8192 4 F 5 0 0 1 0 1 2 0 2 3 0 3 4 0 4 5 R 0 0 2 R 0 2 2147483647 F 3 0 2 6 0 3 7 0 4 8")
 	for i, c := range r.cache.cells {
 		if len(c.sequences) > 0 && c.pos == 0 {
-			if id, _, _ := r.rowK(0, i); id == 3 {
+			if id, _, _ := r.rowK(r.layers[0], i); id == 3 {
 				bits |= 1
 			}
 		}
@@ -2159,6 +2176,9 @@ func TestVerifC06(t *testing.T) {
 		if cf.window != math.MaxInt32 {
 			out.Count("cfg_windowed")
 		}
+		if cf.layerSet != 0 {
+			out.Count("cfg_sparse_layer_numbers")
+		}
 		if cf.cachePad > 1 {
 			out.Count("cfg_cache_padding")
 		}
@@ -2188,12 +2208,14 @@ func TestVerifC06(t *testing.T) {
 	depth := zzverif.EnvInt("VERIF_EXH_DEPTH", 3)
 	base := vfConfig{variant: zzverif.EnvInt("VERIF_C06_VARIANT", 0), window: math.MaxInt32, maxSeq: 1, maxBatch: 2, cachePad: 1, batchPad: 1, hasShift: true, maxNodes: 8192}
 	var cfgs []vfConfig
-	for _, capy := range []int{2, 3, 4} {
+	for k, capy := range []int{2, 3, 4} {
 		c := base
 		c.capacity = capy
+		c.layerSet = []int{0, 1, 4}[k]
 		cfgs = append(cfgs, c)
 	}
 	w := base
+	w.layerSet = 3
 	w.window, w.capacity = 1, 2 // cells = 1*1 + 2 = 3
 	cfgs = append(cfgs, w)
 	vfExhaustive(out, depth, cfgs)
